@@ -174,4 +174,18 @@ theorem build_keeps_kt_start (b : Builder ℝ) (c : Cfg ℝ) (h : b.build = .ok 
     subst h
     rfl
 
+/-- **IEEE special values.** Over ANY carrier (so in particular over the doubles, where the
+temperature may have become `-0.0`, negative or NaN through `0·∞` or a cooling ratio above one):
+whenever the temperature is not strictly positive — `¬ (0 < kt)`, which NaN, `±0` and negative
+values all satisfy — the acceptance rule is exactly the hill-climb rule "defined, not NaN, and
+better, or not worse with a threshold below one"; no division by the temperature is evaluated. -/
+theorem not_positive_temperature_is_hill_climb {α : Type} [Add α] [Sub α] [Mul α] [Div α] [Neg α]
+    [LT α] [DecidableLT α] [LE α] [DecidableLE α] [BEq α] [NatCast α] [IntCast α] [Transc α]
+    [FModLike α] [FMin α] (n old kt thr : α) (hkt : ¬ (PV.zero < kt)) :
+    acceptScore (some n) old kt thr =
+      if !(n == n) then none
+      else if old < n then some n
+      else if decide (thr < (if old ≤ n then ((1 : Nat) : α) else PV.zero)) then some n else none := by
+  simp [acceptScore, testAcceptance, energySurface, hkt]
+
 end PV.Proofs.C05
